@@ -27,6 +27,7 @@ TNew ==
           \cup When(e.raised = "", "C14_ConstructRaised")
           \cup When(e.raised # "" \/ ConstructOk("", e.valid, e.rgbOk, e.rgbNone, e.errNonEmpty), "C14_OutcomeAlgebra")
           \cup When(e.raised # "" \/ ConstructPure(e.key, e.valid), "C15_ConstructPure")
+          \cup When(e.argSame, "C15_ArgumentAltered")        \* the caller's own objects (lists) are as he passed them
           \cup When(Quiet(FALSE, FALSE, e.dout, ToSet(e.newFiles), ToSet(e.modFiles)), "C17_Quiet")
      /\ objs' = IF e.raised = "" THEN Put(objs, e.obj, [key |-> e.key, valid |-> e.valid]) ELSE objs
      /\ nt' = [nt EXCEPT !.new = @ + 1, !.invalid = @ + (IF e.raised = "" /\ ~e.valid THEN 1 ELSE 0)]
@@ -87,6 +88,7 @@ TBulk ==
              \cup When(~ok \/ BulkIsMap(e.entries, e.results, e.mode, e.vr), "C12_BulkIsMapOfSingle")
              \cup When(~ok \/ BulkInvalid(e.entries, e.results), "C12_InvalidEntryUnchanged")
              \cup (IF ok THEN UNION {StatusFails(e.results[j]) : j \in {x \in 1..Len(e.results) : x <= Len(e.entries) /\ e.entries[x].valid}} ELSE {})
+             \cup When(e.argSame, "C15_ArgumentAltered")
              \cup When(Quiet(FALSE, e.save, e.dout, nf, mf), "C17_Quiet")
              \cup When(OnlyReport(e.save, nf, mf, BulkReport), "C17_OnlyReport")
              \* C17: with save_report the call returns what the plain call returns (so it must return at all, and be the same map)
